@@ -1,8 +1,8 @@
 SPECIFICATION Spec
 CONSTANTS
   Dev = {}
-  MaxOps = 3
-  OptSet = "quick"
+  MaxOps = 2
+  OptSet = "mid"
   EmitReplay = TRUE
 INVARIANTS WF ObsInv MergeIsJointBuild InitialMergeIsJointBuild DeleteIsBuildOfRest WeedPartition Emit
 CHECK_DEADLOCK FALSE
